@@ -87,57 +87,118 @@ theorem loop_ok_seq (reg : Registry) (st : Store) (dq : List UDef) (it : Nat) (h
 /-! ### `add_unit` / `add_now` succeed exactly under these conditions -/
 open PMap
 
-theorem addUnit_ok {reg : Registry} {st : Store} {name : String} {elems : List UnitElem} {r : Registry × Store}
-    (h : addUnit reg st name elems = .ok r) :
-      ∃ k c md, defMeaning st.id elems = .ok (k, c, md) ∧
+/-- a definition whose value exists has no refused offset (the offset test is part of `elemMeaning`) -/
+theorem elemMeaning_ok_offset {id : Nat} {e : UnitElem} {r : Scale × Container × Bool}
+    (h : elemMeaning id e = .ok r) : elemOffsetBad e = false := by
+  unfold elemMeaning at h
+  simp only [bind, Except.bind, pure, Except.pure, throw, throwThe, MonadExceptOf.throw] at h
+  repeat' split at h
+  all_goals cases h
+  all_goals simp only [elemOffsetBad, Bool.not_eq_true, *] at *
+
+theorem defMeaning_ok_offset {id : Nat} : ∀ {elems : List UnitElem} {r : Scale × Container × Bool},
+    defMeaning id elems = .ok r → elems.any elemOffsetBad = false := by
+  intro elems
+  induction elems with
+  | nil => intro r _; rfl
+  | cons e es ih =>
+      intro r h
+      simp only [defMeaning, bind, Except.bind, pure, Except.pure] at h
+      split at h
+      · cases h
+      · rename_i v hv
+        split at h
+        · cases h
+        · rename_i v' hv'
+          simp only [List.any_cons, elemMeaning_ok_offset hv, ih hv', Bool.or_self]
+
+/-- `add_unit` on a name that passes the three name tests and an expression all of whose identifiers resolve -/
+theorem addUnitWith_pass {m : Except DefErr (Scale × Container × Bool)} {reg : Registry} {st : Store} {name : String}
+    (h1 : Cellml.Gen.cellmlUnits.contains name = false) (h2 : st.known.contains name = false)
+    (h3 : Cellml.Gen.unsupportedUnits.contains name = false) :
+    addUnitWith true m reg st name =
+      match m with
+      | .error .offset => .error (.valueError "offset")
+      | .error (.badNumber w) => .error (.badDefinition w)
+      | .error (.unsupported w) => .error (.unsupported w)
+      | .ok (k, c, md) =>
+        if norm c = [] then
+          .ok ((prefixName st.id name, .derived (norm k) []) :: reg, { st with known := name :: st.known })
+        else if md then .error (.unsupported "dimensionless mixed with dimensional units")
+        else .ok ((prefixName st.id name, .derived (norm k) (norm c)) :: reg, { st with known := name :: st.known }) := by
+  unfold addUnitWith
+  simp only [h1, h2, h3, Bool.false_eq_true, if_false, Bool.not_true]
+  rfl
+
+theorem addUnitWith_ok {refs : Bool} {m : Except DefErr (Scale × Container × Bool)} {reg : Registry} {st : Store}
+    {name : String} {r : Registry × Store} (h : addUnitWith refs m reg st name = .ok r) :
+      ∃ k c md, m = .ok (k, c, md) ∧
         Cellml.Gen.cellmlUnits.contains name = false ∧ st.known.contains name = false ∧
         Cellml.Gen.unsupportedUnits.contains name = false ∧
-        allKnown reg (norm c) = true ∧ (md = true → norm c = []) ∧
+        refs = true ∧ (md = true → norm c = []) ∧
         r = ((prefixName st.id name, .derived (norm k) (norm c)) :: reg, { st with known := name :: st.known }) := by
-  unfold addUnit at h
-  cases hd : defMeaning st.id elems with
-  | error e => rw [hd] at h; cases e <;> cases h
+  unfold addUnitWith at h
+  by_cases h1 : Cellml.Gen.cellmlUnits.contains name = true
+  · rw [if_pos h1] at h; cases h
+  rw [if_neg h1] at h
+  by_cases h2 : st.known.contains name = true
+  · rw [if_pos h2] at h; cases h
+  rw [if_neg h2] at h
+  by_cases h3 : Cellml.Gen.unsupportedUnits.contains name = true
+  · rw [if_pos h3] at h; cases h
+  rw [if_neg h3] at h
+  by_cases h4 : (!refs) = true
+  · rw [if_pos h4] at h; cases h
+  rw [if_neg h4] at h
+  simp only [Bool.not_eq_true, Bool.not_eq_eq_eq_not, Bool.not_true] at h1 h2 h3 h4
+  have h4 : refs = true := by cases refs <;> simp_all
+  cases m with
+  | error e => cases e <;> cases h
   | ok p =>
     obtain ⟨k, c, md⟩ := p
-    rw [hd] at h
     dsimp only at h
-    refine ⟨k, c, md, rfl, ?_⟩
-    by_cases h1 : Cellml.Gen.cellmlUnits.contains name = true
-    · rw [if_pos h1] at h; cases h
-    rw [if_neg h1] at h
-    by_cases h2 : st.known.contains name = true
-    · rw [if_pos h2] at h; cases h
-    rw [if_neg h2] at h
-    by_cases h3 : Cellml.Gen.unsupportedUnits.contains name = true
-    · rw [if_pos h3] at h; cases h
-    rw [if_neg h3] at h
-    by_cases h4 : (!allKnown reg (norm c)) = true
-    · rw [if_pos h4] at h; cases h
-    rw [if_neg h4] at h
-    simp only [Bool.not_eq_true, Bool.not_eq_eq_eq_not, Bool.not_true] at h1 h2 h3 h4
-    have h4 : allKnown reg (norm c) = true := by cases hx : allKnown reg (norm c) <;> simp_all
+    refine ⟨k, c, md, rfl, h1, h2, h3, h4, ?_⟩
     by_cases h5 : norm c = []
     · rw [if_pos h5] at h
       simp only [Except.ok.injEq] at h
-      refine ⟨h1, h2, h3, h4, fun _ => h5, ?_⟩
+      refine ⟨fun _ => h5, ?_⟩
       rw [h5]; exact h.symm
     · rw [if_neg h5] at h
       by_cases h6 : md = true
       · rw [if_pos h6] at h; cases h
       rw [if_neg h6] at h
       simp only [Except.ok.injEq] at h
-      exact ⟨h1, h2, h3, h4, fun hm => absurd hm h6, h.symm⟩
+      exact ⟨fun hm => absurd hm h6, h.symm⟩
+
+/-- `addUnit` past its offset test -/
+theorem addUnit_noOffset {reg : Registry} {st : Store} {name : String} {elems : List UnitElem}
+    (h : elems.any elemOffsetBad = false) :
+    addUnit reg st name elems = addUnitWith (refsKnown reg st.id elems) (defMeaning st.id elems) reg st name := by
+  unfold addUnit
+  rw [if_neg (by rw [h]; exact Bool.false_ne_true)]
+
+theorem addUnit_ok {reg : Registry} {st : Store} {name : String} {elems : List UnitElem} {r : Registry × Store}
+    (h : addUnit reg st name elems = .ok r) :
+      ∃ k c md, defMeaning st.id elems = .ok (k, c, md) ∧
+        Cellml.Gen.cellmlUnits.contains name = false ∧ st.known.contains name = false ∧
+        Cellml.Gen.unsupportedUnits.contains name = false ∧
+        refsKnown reg st.id elems = true ∧ (md = true → norm c = []) ∧
+        r = ((prefixName st.id name, .derived (norm k) (norm c)) :: reg, { st with known := name :: st.known }) := by
+  unfold addUnit at h
+  by_cases h0 : elems.any elemOffsetBad = true
+  · rw [if_pos h0] at h; cases h
+  rw [if_neg h0] at h
+  exact addUnitWith_ok h
 
 theorem addUnit_of {reg : Registry} {st : Store} {name : String} {elems : List UnitElem} {k : Scale} {c : Container}
     {md : Bool} (hd : defMeaning st.id elems = .ok (k, c, md))
     (h1 : Cellml.Gen.cellmlUnits.contains name = false) (h2 : st.known.contains name = false)
-    (h3 : Cellml.Gen.unsupportedUnits.contains name = false) (h4 : allKnown reg (norm c) = true)
+    (h3 : Cellml.Gen.unsupportedUnits.contains name = false) (h4 : refsKnown reg st.id elems = true)
     (h5 : md = true → norm c = []) :
     addUnit reg st name elems =
       .ok ((prefixName st.id name, .derived (norm k) (norm c)) :: reg, { st with known := name :: st.known }) := by
-  unfold addUnit
-  rw [hd]
-  simp only [h1, h2, h3, h4, Bool.false_eq_true, if_false, Bool.not_true]
+  rw [addUnit_noOffset (defMeaning_ok_offset hd), h4, addUnitWith_pass h1 h2 h3, hd]
+  dsimp only
   by_cases h6 : norm c = []
   · simp [h6]
   · simp only [h6, if_false]
@@ -156,22 +217,14 @@ theorem addNow_ok {reg : Registry} {st : Store} {d : UDef} {r : Registry × Stor
   by_cases h2 : st.isDefined d.name = true
   · rw [if_pos h2] at h; cases h
   rw [if_neg h2] at h
-  by_cases h3 : Cellml.Gen.unsupportedUnits.contains d.name = true
-  · rw [if_pos h3] at h; cases h
-  rw [if_neg h3] at h
-  by_cases h4 : (!refsResolve reg st d) = true
-  · rw [if_pos h4] at h; cases h
-  rw [if_neg h4] at h
-  simp only [Bool.not_eq_true, Bool.not_eq_eq_eq_not, Bool.not_true] at h1 h2 h3 h4
-  have h4 : refsResolve reg st d = true := by cases hx : refsResolve reg st d <;> simp_all
+  simp only [Bool.not_eq_true] at h1 h2
+  obtain ⟨_, _, _, _, _, _, h3, h4, _, _⟩ := addUnit_ok h
   exact ⟨h1, h2, h3, h4, h⟩
 
 theorem addNow_of {reg : Registry} {st : Store} {d : UDef} (h1 : d.elems.any elemOffsetBad = false)
-    (h2 : st.isDefined d.name = false) (h3 : Cellml.Gen.unsupportedUnits.contains d.name = false)
-    (h4 : refsResolve reg st d = true) : addNow reg st d = addUnit reg st d.name d.elems := by
+    (h2 : st.isDefined d.name = false) : addNow reg st d = addUnit reg st d.name d.elems := by
   unfold addNow
-  rw [if_neg (by rw [h1]; exact Bool.false_ne_true), if_neg (by rw [h2]; exact Bool.false_ne_true),
-    if_neg (by rw [h3]; exact Bool.false_ne_true), if_neg (by rw [h4]; decide)]
+  rw [if_neg (by rw [h1]; exact Bool.false_ne_true), if_neg (by rw [h2]; exact Bool.false_ne_true)]
 
 /-- what a successful `add_now` does to the state -/
 theorem addNow_state {reg : Registry} {st : Store} {d : UDef} {reg' : Registry} {st' : Store}
